@@ -17,6 +17,25 @@ CLAIMS = {
         "It does NOT decide absence of undefined behaviour in general; behaviour is not executed."),
   note='Trusted: clang 14 front end (parser, template instantiation, CFG, constant evaluator); primitive load-width table sv/primitives.py; libc realloc/free/memcpy contracts. Path-insensitive joins; a construct the engine cannot model is exit 2.',
   design='5/C02'),
+ 'C01': dict(
+  category='model_checking',
+  technique='model extraction from clang CFG facts + exhaustive product with an RFC 8259 reference transducer (E6); abstract interpretation of parseNumber against the number DFA; dominance dataflow; constant checks',
+  text=("Decides from /repo's current source: (a) the lexeme-level language of Parser::Parse/parseImpl/parsePrimitives, interpreted mechanically from the CFG of the SAXHandler "
+        "instantiation, equals RFC 8259's (same accept/reject for every lexeme sequence up to the nesting bound, incl. unterminated strings meeting the sentinel and trailing bytes), "
+        "by exhaustive exploration of the product with a reference transducer; (b) parseNumber, abstractly interpreted over byte classes, only steps its cursor along transitions of the RFC 8259 number DFA and "
+        "reports success only in accepting states (digit after '.', 'e', sign, '-'; no digits after a leading 0), with the digit helpers verified over all 256 bytes; (c) literal constants and cursor advances; "
+        "(d) sentinel bytes and padding; (e) failure coherence: root installed only on the no-error edge, old DOM destroyed first, reported offset bounded by the length. "
+        "NOT decided: string scanning (C05), numeric values (C04), SIMD white-space skipping, the error-class naming."),
+  note='Trusted: clang 14 front end; the hand-written reference transducer (sv/e6_vpa.py ref_step) and number DFA (sv/props/c01_number.py); contract that each scalar sub-parser consumes one well-formed lexeme of its kind or sets err_; simd_str2int digit-count contract. Nesting explored exactly up to depth 3 (quick) / 4 (thorough), element counts saturate at 2. Unmodelled statements -> exit 2.',
+  design='5/C01'),
+ 'C03': dict(
+  category='model_checking',
+  technique='model extraction + exhaustive product comparing SAX event streams (E6); exact checks of enum/shift constants (E5)',
+  text=("Decides: (a) the SAX transduction of the parser skeleton is canonical - Start/End events on brackets, exactly one count increment per completed element or member, End*(count) arguments, Key before ':' and a value event after it - "
+        "by the same product exploration as C01, comparing output streams with the reference transducer; (b) the type-flag algebra of type.h (basic types distinct in 3 bits, sub-types refine their basic type, container mask selects exactly object/array, 8 info bits); "
+        "(c) every length pack/unpack shift uses the info width. NOT decided: node copying, parent-index chaining, white-space bitmap caching, accessor behaviour, numeric values."),
+  note='Trusted: clang 14 front end; reference transducer; scalar sub-parser contract. Bounds as C01.',
+  design='5/C03'),
 }
 NA_REASON = {
  'C19': 'Agreement with a recursive merge model over (document, text) pairs; no structural clause that is a necessary condition without mirroring the handler code (DESIGN.md section 7).',
